@@ -1,5 +1,6 @@
 import SeataModel.Driver.Util
 import SeataModel.XA.Branch
+import SeataModel.XA.Conn
 namespace Seata.Driver.C17
 open Seata.XA Seata.Driver
 
@@ -19,7 +20,16 @@ def parseFault (s : String) : Option Fault :=
   if s == "none" then some .none else if s == "register" then some .registerRefused else if s == "start" then some .start
   else if s == "stmt" then some .stmt else if s == "end" then some .end_ else if s == "prepare" then some .prepare else none
 
-/-- `xa <fault> <commit|rollback>` ; `id <xid text> <branch>` -/
+/-- `s:<fault>` a statement, `b:<fault>` BeginTx, `c:<fault>` tx.Commit, `r` tx.Rollback -/
+def parseCOp (t : String) : Option COp :=
+  if t == "r" then some .rollbackTx
+  else match t.splitOn ":" with
+    | ["s", f] => (parseFault f).map .stmt
+    | ["b", f] => (parseFault f).map .begin
+    | ["c", f] => (parseFault f).map .commitTx
+    | _ => none
+
+/-- `xa <fault> <commit|rollback>` ; `id <xid text> <branch>` ; `xaconn <op>…` -/
 def handle (ws : List String) : String :=
   match ws with
   | ["skip"] => "skip"      -- a case decided by the oracle on the implementation alone
@@ -38,6 +48,14 @@ def handle (ws : List String) : String :=
     let two := if order == "12" then phaseTwo c1 ++ phaseTwo c2 else phaseTwo c2 ++ phaseTwo c1
     let st (c : Bool) : String := showSt (dbState (whole .none c))
     s!"{joinSp ((p1 ++ p1 ++ two).map showEv)} | err=0 state={st c1},{st c2}"
+  | "xaconn" :: toks =>
+    -- a connection the application keeps: for every statement that reaches the database, was it inside a branch?
+    match toks.mapM parseCOp with
+    | none => "bad-op"
+    | some ops =>
+      let r := crun cstep {} ops
+      let flags := r.2.map fun b => if b then "1" else "0"
+      s!"inside={if flags.isEmpty then "-" else ",".intercalate flags}"
   | ["id", xid, br] =>
     match br.toNat? with
     | none => "bad-id"
